@@ -61,6 +61,96 @@ func referenceEntryGuard(r *core.Run) {
 		}
 		return true
 	})
+	// the same as an if chain: `if tok.Type == IDENT { return tok, true }`
+	ast.Inspect(asIdent.Body, func(n ast.Node) bool {
+		is, ok := n.(*ast.IfStmt)
+		if !ok {
+			return true
+		}
+		yes := false
+		for _, st := range is.Body.List {
+			if rs, ok := st.(*ast.ReturnStmt); ok && len(rs.Results) == 2 {
+				if tv, ok := info.Types[rs.Results[1]]; ok && tv.Value != nil && tv.Value.String() == "true" {
+					yes = true
+				}
+			}
+		}
+		if !yes {
+			return true
+		}
+		var collect func(c ast.Expr) bool
+		var found []types.Object
+		collect = func(c ast.Expr) bool {
+			b, ok := core.Unparen(c).(*ast.BinaryExpr)
+			if !ok {
+				return false
+			}
+			if b.Op == token.LOR {
+				return collect(b.X) && collect(b.Y)
+			}
+			if b.Op != token.EQL {
+				return false
+			}
+			for _, side := range []ast.Expr{b.X, b.Y} {
+				if o, ok := core.UsedObj(info, side).(*types.Const); ok {
+					found = append(found, o)
+					return true
+				}
+			}
+			return false
+		}
+		if collect(is.Cond) {
+			for _, o := range found {
+				accept[o] = true
+			}
+		}
+		return true
+	})
+	// inverted spelling: `if tok.Type != BOOL { return tok, false }` … `return converted, true` at the end
+	if n := len(asIdent.Body.List); n > 0 {
+		isBoolRet := func(st ast.Stmt, want string) bool {
+			rs, ok := st.(*ast.ReturnStmt)
+			if !ok || len(rs.Results) != 2 {
+				return false
+			}
+			tv, ok := info.Types[rs.Results[1]]
+			return ok && tv.Value != nil && tv.Value.String() == want
+		}
+		if isBoolRet(asIdent.Body.List[n-1], "true") {
+			for _, st := range asIdent.Body.List[:n-1] {
+				is, ok := st.(*ast.IfStmt)
+				if !ok || len(is.Body.List) == 0 || !isBoolRet(is.Body.List[len(is.Body.List)-1], "false") {
+					continue
+				}
+				var consts []types.Object
+				var allNeq func(c ast.Expr) bool
+				allNeq = func(c ast.Expr) bool {
+					b, ok := core.Unparen(c).(*ast.BinaryExpr)
+					if !ok {
+						return false
+					}
+					if b.Op == token.LAND {
+						return allNeq(b.X) && allNeq(b.Y)
+					}
+					if b.Op != token.NEQ {
+						return false
+					}
+					for _, side := range []ast.Expr{b.X, b.Y} {
+						if o, ok := core.UsedObj(info, side).(*types.Const); ok {
+							consts = append(consts, o)
+							return true
+						}
+					}
+					return false
+				}
+				if allNeq(is.Cond) {
+					for _, o := range consts {
+						accept[o] = true
+					}
+				}
+			}
+		}
+	}
 	if len(accept) == 0 {
 		r.Fatal("R-PANIC/P2g: no accepting clause found in Token.AsIdent")
 		return
@@ -177,7 +267,14 @@ func (g *entryGuard) condTypes(cond ast.Expr) map[types.Object]bool {
 }
 
 func (g *entryGuard) isNext(e ast.Expr) bool {
-	c, ok := core.Unparen(e).(*ast.CallExpr)
+	e = core.Unparen(e)
+	if id, ok := e.(*ast.Ident); ok {
+		// `next := ww.nextType()` (also as the init of a switch or an if): the local names the peeked type
+		if def := soleDefinition(g.info, id); def != nil {
+			e = core.Unparen(def)
+		}
+	}
+	c, ok := e.(*ast.CallExpr)
 	if !ok {
 		return false
 	}
@@ -229,6 +326,29 @@ func (g *entryGuard) guardAt(c *ast.CallExpr, fd *ast.FuncDecl, depth int) (map[
 				if s, ok := path[j].(*ast.SwitchStmt); ok {
 					sw = s
 					break
+				}
+			}
+			if sw != nil && sw.Tag == nil && len(x.List) > 0 {
+				// tagless switch: the clause is taken when one of its expressions holds
+				ts := map[types.Object]bool{}
+				ok := true
+				for _, e := range x.List {
+					sub := g.condTypes(e)
+					if sub == nil {
+						ok = false
+						break
+					}
+					for k := range sub {
+						ts[k] = true
+					}
+				}
+				if ok {
+					for _, st := range x.Body {
+						if g.consumedBefore(st, c) {
+							return nil, "a token is consumed between the test and the call"
+						}
+					}
+					return ts, ""
 				}
 			}
 			if sw != nil && sw.Tag != nil && g.isNext(sw.Tag) && len(x.List) > 0 {
